@@ -45,6 +45,7 @@ func init() {
 			RunFlowMust(p, r, id, pkgScope(flowAreas[id]...))
 			RunFlowLoop(p, r, id, pkgScope(flowAreas[id]...))
 			RunMulAccOwn(p, r, pkgScope(flowAreas[id]...))
+			RunMemoArgs(p, r, pkgScope(flowAreas[id]...))
 			r.Explanation += " LOOP-MUST (reference): per function, the constraint sites that run in every iteration of their loop (compositional through helpers) do not fall below the reviewed number, so a per-element constraint cannot be skipped for some elements. MULACC-OWN (intrinsic): the accumulator handed to MulAcc, which may be written in place, is never an operand received from the caller."
 			if id == "C05" || id == "C14" {
 				r.Engines = append(r.Engines, "ordguard(ORDER-GUARD)")
